@@ -18,6 +18,8 @@ REPERTOIRE = {
     "digits": [("one", 0x31), ("two", 0x32), ("one-ar", 0x661)],
     "punct": [("period", 0x2E), ("comma", 0x2C), ("hyphen", 0x2D), ("space", 0x20)],
     "marks": [("acutecomb", 0x301), ("gravecomb", 0x300), ("fatha-ar", 0x64E)],
+    # script-specific glyphs with a NEUTRAL bidi class (points / marks whose Script property is Hebrew / Arabic)
+    "rtlneutral": [("hiriq-hb", 0x5B4), ("dagesh-hb", 0x5BC), ("alefabove-ar", 0x670), ("qamats-hb", 0x5B8)],
     "unencoded": [("a.alt", None), ("x.alt", None), ("period.alt", None), ("alef-ar.fina", None)],
 }
 
@@ -29,7 +31,9 @@ def box(x0=50, y0=0, w=200, h=400):
 def repertoire(rng, nmin=6, nmax=14, force=None):
     classes = list(REPERTOIRE)
     chosen = set(force or [])
-    chosen |= set(rng.sample([c for c in classes if c not in ("unencoded", "marks")], rng.randint(2, 5)))
+    chosen |= set(rng.sample([c for c in classes if c not in ("unencoded", "marks", "rtlneutral")], rng.randint(2, 5)))
+    if rng.random() < 0.3:
+        chosen.add("rtlneutral")
     if rng.random() < 0.6:
         chosen.add("unencoded")
     if rng.random() < 0.4:
@@ -94,7 +98,7 @@ def kerning_font(rng, writer="kern1"):
     names = [n for n, _ in gl]
     glyphs = {}
     for n, cp in gl:
-        is_mark = n in ("acutecomb", "gravecomb", "fatha-ar")
+        is_mark = n in ("acutecomb", "gravecomb", "fatha-ar", "hiriq-hb", "dagesh-hb", "alefabove-ar", "qamats-hb")
         glyphs[n] = {"cs": [box()], "comps": [], "anchors": [], "w": (0 if is_mark and rng.random() < 0.7 else rng.randint(200, 700)) * PS,
                      "h": 0, "u": [cp] if cp else []}
     fea = []
@@ -126,7 +130,7 @@ def kerning_font(rng, writer="kern1"):
             subs.append(f"sub {s} by x.alt;") if False else None
     if subs:
         fea.append("feature ss01 {\n " + "\n ".join(subs) + "\n} ss01;")
-    marks = [n for n in names if n in ("acutecomb", "gravecomb", "fatha-ar")]
+    marks = [n for n in names if n in ("acutecomb", "gravecomb", "fatha-ar", "hiriq-hb", "dagesh-hb", "alefabove-ar", "qamats-hb")]
     lib = {}
     if marks and rng.random() < 0.7:
         cats = {n: "mark" for n in marks}
@@ -160,6 +164,12 @@ def kerning_font(rng, writer="kern1"):
         r_ = rng.choice(names + g2 + g2 + ["missing.glyph"]) if g2 else rng.choice(names)
         v = rng.choice(vals + tie_vals) * rng.choice([1, 1, 4, 4, 8])
         entries[(l, r_)] = v
+    # pairs among the neutral-bidi glyphs of right-to-left scripts (mark against mark)
+    rn = [n for n in names if n in ("hiriq-hb", "dagesh-hb", "alefabove-ar", "qamats-hb")]
+    for a_ in rn:
+        for b_ in rn:
+            if rng.random() < 0.5:
+                entries[(a_, b_)] = rng.choice([100, -72, 60])
     # exceptions at every precedence level for one class pair
     if g1 and g2 and rng.random() < 0.6:
         cl, cr = rng.choice(g1), rng.choice(g2)
